@@ -10,10 +10,10 @@ CHECKS = {
  "C03": ("E1 symx (token lift) + REF-ISO", E1 + "; numerals lifted to symbols through the real ANTLR parse tree; obligations: parsed graph isomorphic to the molecule, fixed point", "§6 C03"),
  "C05": ("E1 symx + REF-GRAMMAR/LAYOUT/HILL + E3 atnre", E1 + "; emitted segment string judged by an independent grammar/layout validator; validator tied to the parser automaton by z3 regex inclusion", "§6 C05"),
  "C06": ("E1 symx + REF-V3000/V2000", E1 + "; two renderings differing in symbolic non-identity data through the real reader and pipeline; obligation: strings equal", "§6 C06"),
- "C09": ("E1 symx + E2 CrossHair + REF-V3000-READER", E1 + "; graph_to_molfile -> reader round trip with symbolic attributes; CrossHair (z3) on the wrap/splice string kernels with a symbolic line", "§6 C09"),
+ "C09": ("E1 symx (incl. SymStr) + E2 CrossHair + REF-V3000-READER", E1 + "; graph_to_molfile -> reader round trip with symbolic attributes; the real wrap/splice functions on a line of symbolic length and content (SymStr, LIA+UF); CrossHair (z3) on the same kernels with a symbolic str", "§6 C09, §12.2"),
  "C10": ("E3 atnre + E1 symx (token lift) + REF-DECODER", "z3 regular-expression language inclusion (both directions, unbounded length) between the generated parser's ATN (state elimination) and the EBNF transcription; " + E1 + " with all numerals symbolic", "§6 C10"),
  "C11": ("E1 symx (token lift) + REF-GRAMMAR", E1 + "; solver-chosen respelling of the canonical string through the real parser; obligations: same normal form, idempotent", "§6 C11"),
- "C07": ("E1 symx + REF-V3000", E1 + "; REF-V3000 renderings with symbolic fields through the real reader; obligation: graph equals the stated molecule attribute for attribute", "§6 C07"),
+ "C07": ("E1 symx (incl. SymStr) + REF-V3000", E1 + "; REF-V3000 renderings with symbolic fields through the real reader; continuation lemma on a line of symbolic length with symbolic split positions; obligation: graph equals the stated molecule attribute for attribute", "§6 C07, §12.2"),
  "C08": ("E1 symx + REF-V2000 + REF-V3000", E1 + "; V2000 and V3000 renderings of one abstract molecule through the real reader; obligations: both graphs equal the molecule, strings equal", "§6 C08"),
  "C12": ("E1 symx", E1 + "; obligations: attribute terms carried, input snapshots unchanged, repeat calls equal", "§6 C12"),
  "C13": ("E1 symx + REF-ISO", E1 + "; obligations: classes label-independent, equitable, closed under colour-preserving automorphisms", "§6 C13"),
@@ -37,7 +37,7 @@ TEXT = {
  "C15": "Bounded for small molecules (no exception on any path, all label values). For sizes in the thousands: measured stack-depth growth plus scaled real runs — an argument with replay, stated as such.",
  "C16": "Bounded: for every graph of the strata and every shuffle outcome (all n! permutations, retries to a stated depth) the helper's result is a faithful relabelled copy.",
 }
-NOTE = "Trusted: z3 5.1 (LIA), CPython, the symx engine modulo its per-path concrete cross-check (every path model is replayed on plain ints; disagreement = engine divergence, reported), reference artefacts under /verif/ref (self-tested). networkx and igraph are executed, not modelled. Nothing is claimed outside the bounds echoed in the evidence file."
+NOTE = "Trusted: z3 5.1 (LIA/UF/regex; a sample of end-of-path queries and the grammar inclusions are re-decided by cvc5 1.0.3), CPython, the symx engine modulo its per-path concrete cross-check (every path model is replayed on plain ints; disagreement = engine divergence, reported), reference artefacts under /verif/ref (self-tested). networkx and igraph are executed, not modelled. Nothing is claimed outside the bounds echoed in the evidence file."
 NA = [
  {"property_id": "C14", "reason": "Thread schedules, call histories through ANTLR's class-level DFA/prediction-context caches and the interpreter hash seed range over CPython/ANTLR runtime state that no solver-based engine available here encodes; deciding it needs process-level differential testing and a concurrency tester (another technique family). See DESIGN.md §6 C14."},
 ]
@@ -66,6 +66,7 @@ def build(claimed, na_extra):
             {"name": "symx", "path": "/verif/symx", "serves_properties": [p for p in claimed], "kind_free_text": "dynamic symbolic execution (concolic DFS) of the real Python code on z3-backed SymInt/SymBool proxies"},
             {"name": "atnre", "path": "/verif/atnre", "serves_properties": ["C10", "C05"], "kind_free_text": "ANTLR ATN -> z3 regular expression by state elimination; language inclusion by z3's regex theory, cvc5 second opinion"},
             {"name": "kernels", "path": "/verif/kernels", "serves_properties": ["C09"], "kind_free_text": "CrossHair (z3) on string kernels of the molfile writer/reader with a symbolic str"},
+            {"name": "symstr", "path": "/verif/symx/symstr.py", "serves_properties": ["C09", "C07"], "kind_free_text": "symbolic strings of symbolic length (rope over an uninterpreted character function, LIA+UF) through the real wrap/splice functions"},
         ],
         "checks": checks,
         "not_applicable": NA + na_extra,
